@@ -232,6 +232,96 @@ func stressRoundTrips(sk stressKeys, g, it int) (res string) {
 	return ""
 }
 
+// stressCheapCalls: the cheap, allocation-light entry points (frame construction and checking, classification,
+// BaseX and armor of small payloads) in tight loops, every goroutine with ITS OWN brand / payload, each answer
+// compared with the one computed alone beforehand. Windows of a few instructions (a shared backing array written by
+// append, a package-level scratch value) only open under this kind of pressure.
+func stressCheapCalls(quick bool) []string {
+	G, iters := 16, 4000
+	if !quick {
+		iters = 40000
+	}
+	type expect struct {
+		brand, hdr, ftr, armor, b62 string
+		payload                   []byte
+		typ                       saltpack.MessageType
+	}
+	ex := make([]expect, G)
+	for g := range ex {
+		e := expect{brand: fmt.Sprintf("BRAND%dx", g), typ: []saltpack.MessageType{saltpack.MessageTypeEncryption, saltpack.MessageTypeAttachedSignature, saltpack.MessageTypeDetachedSignature}[g%3]}
+		e.payload = bytes.Repeat([]byte{byte(g + 1), byte(3 * g)}, 20+g)
+		e.hdr, e.ftr = saltpack.MakeArmorHeader(e.typ, e.brand), saltpack.MakeArmorFooter(e.typ, e.brand)
+		e.armor, _ = saltpack.Armor62Seal(e.payload, e.typ, e.brand)
+		e.b62 = basex.Base62StdEncoding.EncodeToString(e.payload)
+		ex[g] = e
+	}
+	var out []string
+	var mu sync.Mutex
+	for _, procs := range []int{2, runtime.NumCPU()} {
+		old := runtime.GOMAXPROCS(procs)
+		start := make(chan struct{})
+		var wg sync.WaitGroup
+		for g := 0; g < G; g++ {
+			wg.Add(1)
+			go func(g int) {
+				defer wg.Done()
+				e := ex[g]
+				fail := func(f string, a ...interface{}) {
+					mu.Lock()
+					out = append(out, fmt.Sprintf("GOMAXPROCS=%d, %d goroutines in tight loops, goroutine %d: ", procs, G, g)+fmt.Sprintf(f, a...)+" (alone the call gives the expected answer)")
+					mu.Unlock()
+				}
+				defer func() {
+					if x := recover(); x != nil {
+						fail("panic: %v", x)
+					}
+				}()
+				<-start
+				for it := 0; it < iters; it++ {
+					if h := saltpack.MakeArmorHeader(e.typ, e.brand); h != e.hdr {
+						fail("MakeArmorHeader(type %d, brand %q) = %q", int(e.typ), e.brand, h)
+						return
+					}
+					if f := saltpack.MakeArmorFooter(e.typ, e.brand); f != e.ftr {
+						fail("MakeArmorFooter(type %d, brand %q) = %q", int(e.typ), e.brand, f)
+						return
+					}
+					if b, err := saltpack.CheckArmor62(e.hdr, e.ftr, e.typ); err != nil || b != e.brand {
+						fail("CheckArmor62 of its own frame gives (%q, %v)", b, err)
+						return
+					}
+					if it%8 == 0 {
+						if a, err := saltpack.Armor62Seal(e.payload, e.typ, e.brand); err != nil || a != e.armor {
+							fail("Armor62Seal under brand %q gives another text: %q", e.brand, trunc(a, 80))
+							return
+						}
+						if body, b, _, _, err := saltpack.Armor62OpenWithValidation(e.armor, nil, nil); err != nil || !bytes.Equal(body, e.payload) || b != "" && b != e.brand {
+							fail("Armor62OpenWithValidation of its own text gives (%d bytes, brand %q, %v)", len(body), b, err)
+							return
+						}
+						if s := basex.Base62StdEncoding.EncodeToString(e.payload); s != e.b62 {
+							fail("base62 encoding differs")
+							return
+						}
+						if d, err := basex.Base62StdEncoding.DecodeString(e.b62); err != nil || !bytes.Equal(d, e.payload) {
+							fail("base62 decoding differs (%v)", err)
+							return
+						}
+						if _, _, _, err := saltpack.IsSaltpackArmoredPrefix(e.hdr[:len(e.hdr)/2]); err != saltpack.ErrShortSliceOrBuffer {
+							fail("IsSaltpackArmoredPrefix on half of its own header: %v", err)
+							return
+						}
+					}
+				}
+			}(g)
+		}
+		close(start)
+		wg.Wait()
+		runtime.GOMAXPROCS(old)
+	}
+	return out
+}
+
 // stressConcurrent returns descriptions of round trips that fail only when run concurrently.
 var stressDone int64 // round trips completed concurrently (evidence)
 
@@ -257,6 +347,7 @@ func stressConcurrent(quick bool) []string {
 			return nil
 		}
 	}
+	cheap := stressCheapCalls(quick)
 	keys.Yield = func() { runtime.Gosched(); runtime.Gosched() }
 	defer func() { keys.Yield = nil }()
 	var out []string
@@ -285,5 +376,5 @@ func stressConcurrent(quick bool) []string {
 		wg.Wait()
 		runtime.GOMAXPROCS(old)
 	}
-	return out
+	return append(out, cheap...)
 }
